@@ -41,7 +41,6 @@ void ares_cancel(ares_channel_t *channel)
 
   if (ares_llist_len(channel->all_queries) > 0) {
     ares_llist_node_t *node = NULL;
-    ares_llist_node_t *next = NULL;
 
     /* Swap list heads, so that only those queries which were present on entry
      * into this function are cancelled. New queries added by callbacks of
@@ -57,21 +56,15 @@ void ares_cancel(ares_channel_t *channel)
       goto done;                        /* LCOV_EXCL_LINE: OutOfMemory */
     }
 
-    node = ares_llist_node_first(list_copy);
-    while (node != NULL) {
-      ares_query_t *query;
-
-      /* Cache next since this node is being deleted */
-      next = ares_llist_node_next(node);
-
-      query                   = ares_llist_node_claim(node);
-      query->node_all_queries = NULL;
+    /* Always take the first entry rather than remembering the next one: a
+     * callback may end other queries of this list (e.g. a new request that
+     * can't be written to a connection closes it, which requeues or fails the
+     * queries on it), and they remove themselves from the list. */
+    while ((node = ares_llist_node_first(list_copy)) != NULL) {
+      ares_query_t *query = ares_llist_node_val(node);
 
       /* NOTE: its possible this may enqueue new queries */
-      query->callback(query->arg, ARES_ECANCELLED, 0, NULL);
-      ares_free_query(query);
-
-      node = next;
+      ares_query_complete(query, ARES_ECANCELLED, 0, NULL);
     }
 
     ares_llist_destroy(list_copy);
